@@ -281,6 +281,35 @@ struct Mirror {
     }
 };
 
+// Compile obligation on the CONCRETE class types: every documented encrypt/decrypt overload, inherited from
+// ascon::aead, is called on an object whose static type is the derived class (a member declared in a derived class
+// under one of these names would hide all inherited overloads there, while calls through aead& keep compiling).
+template <class T> static int concrete_overloads()
+{
+    T o;
+    unsigned char buf[64] = {0}, msg[8] = {1, 2, 3}, ad[4] = {4, 5};
+    ascon::byte_array c, m = ba_of(Bytes(8, 1)), a = ba_of(Bytes(4, 2)), out;
+    int r = o.encrypt(buf, msg, sizeof msg);
+    r += o.encrypt(buf, msg, sizeof msg, ad, sizeof ad);
+    o.encrypt(c, m);
+    o.encrypt(c, m, a);
+    r += o.decrypt(msg, buf, 24);
+    r += o.decrypt(msg, buf, 24, ad, sizeof ad);
+    r += o.decrypt(out, c) ? 1 : 0;
+    r += o.decrypt(out, c, a) ? 1 : 0;
+    o.set_nonce(msg, sizeof msg);
+    o.set_counter(5);
+    r += (int)(o.key_size() + o.tag_size() + o.nonce_size());
+    o.clear();
+    return r;
+}
+typedef int (*concrete_fn)();
+static const concrete_fn g_concrete_overloads[] __attribute__((used)) = {
+    concrete_overloads<ascon::aead128>, concrete_overloads<ascon::aead128a>, concrete_overloads<ascon::aead80pq>,
+    concrete_overloads<ascon::aead128_masked>, concrete_overloads<ascon::aead128a_masked>, concrete_overloads<ascon::aead80pq_masked>,
+    concrete_overloads<ascon::siv128>, concrete_overloads<ascon::siv128a>, concrete_overloads<ascon::siv80pq>,
+    concrete_overloads<ascon::isap128>, concrete_overloads<ascon::isap128a>, concrete_overloads<ascon::isap80pq>};
+
 struct CppWorld : World {
     const char *name() const override { return "cppobj"; }
     enum { NC = 3, NH = 3 };
